@@ -166,18 +166,36 @@ func genVerifyBigMutations(h *H, n int) {
 	for i := 0; i < n; i++ {
 		sk := h.randSigKey()
 		pk := sk[32:]
-		v := []string{"1.0", "2.0"}[i%2]
-		la, nm := mib+3+h.rng.Intn(5), 3
+		v := []string{"2.0", "1.0"}[i%2]
+		la, nm := mib+3+h.rng.Intn(5), 2
 		if h.tier == "thorough" {
 			la, nm = 2*mib+h.rng.Intn(3)-1, 6
 		}
-		a := h.makeSigned("att", sk, v, h.rng.Bytes(la))
+		// chunks that start with the byte values the final flag can take
+		ma := h.rng.Bytes(la)
+		for off := 0; off < la; off += mib {
+			ma[off] = byte(1 - (off/mib)%2)
+		}
+		a := h.makeSigned("att", sk, v, ma)
 		b := h.makeSigned("att", sk, v, h.rng.Bytes(100))
-		for k := 0; k < nm; k++ {
-			input, mut := mutateWire(h.rng, a.wire, b.wire)
+		run := func(input []byte, mut string) {
 			h.tag("mut-big:" + mut)
 			h.Run(Case{Op: "verify", A: map[string]string{"vd": "any", "ring": blist([][]byte{pk}), "input": hx(input),
 				"buf": "4096", "truth": blist([][]byte{a.msg, b.msg}), "mut": mut}})
+		}
+		for k := 0; k < nm; k++ {
+			input, mut := mutateWire(h.rng, a.wire, b.wire)
+			run(input, mut)
+		}
+		// every non-final packet re-flagged final with one byte moved across the flag/payload boundary
+		objs, _ := splitObjects(a.wire)
+		for k := 1; k < len(objs)-1; k++ {
+			for how := 0; how < 3; how++ {
+				if h.tier != "thorough" && how != (k+i)%3 && how != 0 {
+					continue
+				}
+				run(boundaryShift(objs, k, how, true), "boundary-shift")
+			}
 		}
 	}
 }
@@ -239,7 +257,7 @@ func init() {
 				n = 12000
 			}
 			genVerifyMutations(h, n)
-			nb := 1
+			nb := 2
 			if h.tier == "thorough" {
 				nb = 8
 			}
